@@ -1,5 +1,7 @@
 import PagexmlModel.Drv.Util
 import PagexmlModel.Model.C06WF
+import PagexmlModel.Model.C06JV
+import PagexmlModel.Model.C06Ctor
 open Lean
 
 namespace Pagexml.Drv.C06
@@ -170,13 +172,15 @@ def handle (op : String) (args : Json) : Dec Json := do
     return jObj [("ok", jObj [("dict", jPy (d.toJson Key.i)), ("str", jPy (d.toJson strKey)),
                               ("norm", jPy (d.toJson Key.i).norm),
                               ("encodable", jBool (d.toJson Key.i).encodable),
-                              ("wf", jBool d.ok), ("depth", jNat d.depth)])]
+                              ("wf", jBool d.ok), ("jv", jBool d.jv),
+                              ("gc", jBool (d.toJson Key.i).guardsCanon), ("depth", jNat d.depth)])]
   | "from_json" =>
     let j ← decPy (← field args "json")
     -- the fuel is the size of the input: more than its nesting depth
     -- `wf`: the rebuilt document is well-formed again (so a second trip is covered by the theorem)
     return match fromJson (pySize j) j with
-      | .ok (some d) => jObj [("ok", jDoc d), ("wf", jBool d.ok)]
+      | .ok (some d) => jObj [("ok", jDoc d), ("wf", jBool d.ok), ("jv", jBool d.jv),
+                              ("in_gc", jBool j.guardsCanon), ("in_stable", jBool j.stable)]
       | .ok none => jObj [("ok", Json.null)]
       | .error e => jObj [("err", jStr e.name)]
   | _ => .error s!"unknown op {op}"
